@@ -180,4 +180,15 @@ theorem C16.traversal_wakeups_source_order :
     Gen.evStartQuery.getD (idxA Gen.evStartQuery "op.outstanding--" + 1) "" = "op.cond.Broadcast" := by
   decide +kernel
 
+/-- T1 (re-export of `C02.closest_set_updated_under_lock`): "announce_peer goes to the members of the final
+closest set" presupposes that no responder is lost when two replies are folded in concurrently. -/
+theorem C16.closest_set_updated_under_lock :
+    Gen.evStartQuery.getD (idxC Gen.evStartQuery "op.addClosest" - 5) "" = "op.mu.Lock" ∧
+    Gen.evStartQuery.getD (idxC Gen.evStartQuery "op.addClosest" - 4) "" = "defer" ∧
+    Gen.evStartQuery.getD (idxC Gen.evStartQuery "op.addClosest" - 3) "" = "op.mu.Unlock" ∧
+    Gen.evStartQuery.getD (idxC Gen.evStartQuery "op.addClosest" + 1) "" = "}" ∧
+    Gen.evAddClosest.getD (idxC Gen.evAddClosest "op.closest.Push" + 1) "" = "set:op.closest" ∧
+    Gen.evAddClosest.contains "op.mu.Lock" = false ∧ Gen.evAddClosest.contains "op.mu.Unlock" = false :=
+  C02.closest_set_updated_under_lock
+
 end Dht
